@@ -100,7 +100,20 @@ fn build(p: &mut P, alt: bool) -> &'static dyn Aml {
         return leak(Field::new(Path::new(&s(&blobs[0])), acc, lock, upd, entries));
     }
     let cnt = match nk { Some(n) => n, None => p.int() as usize };
-    let kids: Vec<&'static dyn Aml> = (0..cnt).map(|_| build(p, false)).collect();
+    // children are `&dyn Aml`: when two siblings are the same term, the *same object* is handed in twice
+    // (one child referenced twice from one parent), as a caller who names a value once would do
+    let mut spans: Vec<(usize, usize)> = Vec::new();
+    let mut kids: Vec<&'static dyn Aml> = Vec::new();
+    for _ in 0..cnt {
+        let a = p.i;
+        let k = build(p, false);
+        let b = p.i;
+        match spans.iter().position(|(x, y)| p.t[*x..*y] == p.t[a..b]) {
+            Some(j) => kids.push(kids[j]),
+            None => kids.push(k),
+        }
+        spans.push((a, b));
+    }
     let path = |i: usize| Path::new(&s(&blobs[i]));
     match op {
         "zero" => leak(Zero {}),
@@ -128,7 +141,14 @@ fn build(p: &mut P, alt: bool) -> &'static dyn Aml {
             } else {
                 // both public ways of making an empty builder are crate constructors
                 let mut b = if kids.len() % 2 == 1 { PackageBuilder::default() } else { PackageBuilder::new() };
-                for k in &kids { b.add_element(*k); }
+                // a builder may be looked at while it is being filled (serialised, summed, nested into another
+                // builder) and extended afterwards: every third builder is serialised after each add
+                let peek = kids.len() % 3 == 2;
+                if peek { let mut scratch = Vec::new(); b.to_aml_bytes(&mut scratch); }
+                for k in &kids {
+                    b.add_element(*k);
+                    if peek { let mut scratch = Vec::new(); b.to_aml_bytes(&mut scratch); let _ = acpi_tables::u8sum(&b); }
+                }
                 leak(b)
             }
         }
@@ -356,7 +376,9 @@ impl<'a> G<'a> {
             2 => self.string(),
             3 => { let k = self.r.below(20) as usize; format!("buf {}", hex(&self.r.bytes(k))) }
             4 => format!("eisa {}", hx(&format!("{}{}{}{:04X}", (b'A' + self.r.below(26) as u8) as char, (b'A' + self.r.below(26) as u8) as char, (b'A' + self.r.below(26) as u8) as char, self.r.below(65536)))),
-            5 => { let k = self.r.below(5); let el: Vec<String> = (0..k).map(|_| self.data(depth - 1)).collect(); format!("{} {} {}", if self.r.coin() { "pkg" } else { "pkgb" }, k, el.join(" ")).trim_end().to_string() }
+            5 => { let k = self.r.below(5); let mut el: Vec<String> = (0..k).map(|_| self.data(depth - 1)).collect();
+                   if !el.is_empty() && self.r.below(4) == 0 { let j = self.r.below(el.len() as u64) as usize; let d = el[j].clone(); el.push(d); }
+                   format!("{} {} {}", if self.r.coin() { "pkg" } else { "pkgb" }, el.len(), el.join(" ")).trim_end().to_string() }
             6 => { let k = self.r.below(4); let ds: Vec<String> = (0..k).map(|_| self.descriptor()).collect(); format!("rt {} {}", k, ds.join(" ")).trim_end().to_string() }
             7 => format!("uuid {}", hx(&{ let b = self.r.bytes(16); format!("{:02x}{:02x}{:02x}{:02x}-{:02x}{:02x}-{:02x}{:02x}-{:02x}{:02x}-{:02x}{:02x}{:02x}{:02x}{:02x}{:02x}", b[0], b[1], b[2], b[3], b[4], b[5], b[6], b[7], b[8], b[9], b[10], b[11], b[12], b[13], b[14], b[15]) })),
             _ => format!("path {}", hx(&path(self.r))),
@@ -398,8 +420,10 @@ impl<'a> G<'a> {
     }
     fn body(&mut self, depth: u32, max: u64) -> String {
         let k = self.r.below(max + 1);
-        let v: Vec<String> = (0..k).map(|_| self.stmt(depth)).collect();
-        format!("{} {}", k, v.join(" ")).trim_end().to_string()
+        let mut v: Vec<String> = (0..k).map(|_| self.stmt(depth)).collect();
+        // now and then the same statement twice (the interpreter then passes one object twice)
+        if !v.is_empty() && self.r.below(5) == 0 { let j = self.r.below(v.len() as u64) as usize; let d = v[j].clone(); v.push(d); }
+        format!("{} {}", v.len(), v.join(" ")).trim_end().to_string()
     }
     /// a TermObj (a statement / namespace object)
     pub fn stmt(&mut self, depth: u32) -> String {
